@@ -172,6 +172,9 @@ func runC10(r *vk.Run) {
 			leaf.Group = grp
 			if !leaf.Without {
 				leaf.Group = append(leaf.Group, "job")
+				if rng.Chance(1, 4) {
+					leaf.Group = nil // `by ()`: every sample has the same (empty) label set
+				}
 			}
 			conservation = false
 		case 5:
